@@ -179,6 +179,12 @@ func (p c07) RunBatch(c *fw.Ctx) {
 			table = append(table, "x = "+a+"; func g() {del(x)}; func f() {x; g(); "+use+"}; f()")
 		}
 	}
+	// every extension applied, inside a function, to a variable of the enclosing scope (it receives a reference)
+	for _, name := range names {
+		for _, a := range V {
+			table = append(table, "x = "+a+"; func f() {"+name+"(x)}; f()", "x = "+a+"; y = 1; func f() {"+name+"(y, x)}; f()")
+		}
+	}
 	for i, src := range table {
 		if i%c.NBatches == c.Batch {
 			p.run(c, src)
@@ -242,7 +248,9 @@ func (p c07) RunBatch(c *fw.Ctx) {
 	for _, src := range []string{"m = macro(x) {x}; m(1)", "m = macro(x) {1}; m(2)", "m = macro() {}; m()", "m = macro(x) {quote(unquote(y))}; m(1)", "m = macro(x) {unquote(x)}; m(1)",
 		"m = macro(x) {quote(unquote(x)(unquote(x)))}; m(m)", "m = macro(x, y) {quote(unquote(x))}; m(1)", "m = macro(x) {quote(m(unquote(x)))}; m(1)", "quote()", "unquote(1)", "quote(unquote())",
 		"m = macro(x) {error(\"e\")}; m(1)", "m = macro(x) {quote(unquote(1/0))}; m(1)", "m = macro(x) {for true {}}; m(1)",
-		"M = macro(x) {quote(unquote(x) + 1)}; M = macro(x) {quote(unquote(x) + 2)}; M(1)", "M = macro(x) {quote(unquote(x))}; M = macro(x) {quote(unquote(x))}", "M = macro() {quote(1)}; M == M; {M: 1}; M < M"} {
+		"M = macro(x) {quote(unquote(x) + 1)}; M = macro(x) {quote(unquote(x) + 2)}; M(1)", "M = macro(x) {quote(unquote(x))}; M = macro(x) {quote(unquote(x))}", "M = macro() {quote(1)}; M == M; {M: 1}; M < M",
+		"mm = macro(x) {f = func(a) {a}; f(1); quote(unquote(x))}; mm(3)", "mq = macro(x) {quote(unquote(3) + unquote(x))}; mq(4)", "mb = macro(x) {quote(if unquote(true) {unquote(x)} else {unquote(nil)})}; mb(1)",
+		"mf = macro(x) {quote(unquote(2.5) * unquote(\"s\") + unquote([1]) + unquote({1: 2}))}; mf(1)"} {
 		if c.Batch == 0 {
 			p.run(c, src)
 		}
